@@ -433,6 +433,11 @@ class Interp:
                         out is not None and norm(out) == arr_param and \
                         c.args and norm(c.args[0]) == arr_param:
                     return [(e, a, evs + [("rint", a.dtype.code)], False)]
+                if full in ("numpy.add", "numpy.subtract") and out is not None \
+                        and norm(out) == arr_param and len(c.args) >= 2 and \
+                        isinstance(c.args[1], ast.Constant) and \
+                        c.args[1].value == 0.5:
+                    return [(e, a, evs + [("half-up", a.dtype.code)], False)]
                 if full == "numpy.clip" and out is not None and \
                         norm(out) == arr_param and len(c.args) >= 3:
                     lo = self.ev(c.args[1], e)
@@ -442,6 +447,11 @@ class Interp:
                 if full and full.startswith("logger"):
                     return [(e, a, evs, False)]
                 raise Undecided(norm(st)[:60])
+            if isinstance(st, ast.AugAssign) and norm(st.target) == arr_param \
+                    and isinstance(st.op, (ast.Add, ast.Sub)) and \
+                    isinstance(st.value, ast.Constant) and st.value.value == 0.5:
+                # "+ 0.5 then truncate": rounds half up, not half to even
+                return [(e, a, evs + [("half-up", a.dtype.code)], False)]
             if isinstance(st, ast.Return):
                 v = st.value
                 if isinstance(v, ast.Call) and isinstance(v.func, ast.Attribute) \
@@ -482,12 +492,13 @@ def converter_lattice(repo, col, in_types=None):
     n_pairs = 0
     in_list = list(in_types or IN_TYPES)
     for i in in_list:
-        for o in OUT_TYPES:
-            n_pairs += 1
+      for o in OUT_TYPES:
+        n_pairs += 1
+        for warn in (False, True):
             interp = Interp(outer.module)
-            env = {"input_dtype": DT(i), "output_dtype": DT(o), "warn": False}
+            env = {"input_dtype": DT(i), "output_dtype": DT(o), "warn": warn}
             for p in params[2:]:
-                env.setdefault(p, False)
+                env.setdefault(p, warn)
             try:
                 interp.run_outer(outer.node, env)
                 env2 = dict(env)
@@ -508,6 +519,9 @@ def converter_lattice(repo, col, in_types=None):
                 cast = [e for e in evs if e[0] == "cast"]
                 if not cast or cast[-1][1] != o:
                     fails.setdefault(("final-cast", "out=%s" % LONG[o]),
+                                     []).append(LONG[i])
+                if any(e[0] == "half-up" for e in evs):
+                    fails.setdefault(("round-mode", "out=%s" % LONG[o]),
                                      []).append(LONG[i])
                 if need_round and not rints:
                     fails.setdefault(("round", "float input, out=%s" % LONG[o]),
@@ -542,6 +556,7 @@ def converter_lattice(repo, col, in_types=None):
                 if rints and idx["rint"] > idx.get("cast", 99):
                     fails.setdefault(("order", "rint after cast"),
                                      []).append("%s->%s" % (LONG[i], LONG[o]))
+    undec = list(dict(undec).items())
     for (what, construct), who in sorted(fails.items()):
         col.add("%s.%s" % (rule, what), outer, construct, False,
                 _why(what, construct, sorted(set(who))))
@@ -570,6 +585,9 @@ def converter_lattice(repo, col, in_types=None):
 
 def _why(what, construct, who):
     msg = {
+        "round-mode": "values are rounded by adding 0.5 and truncating "
+                      "(half up), not half-to-even as documented, for inputs "
+                      "%s",
         "round": "values are not rounded to nearest before the cast "
                  "(truncation) for inputs %s",
         "round-on-float": "rounding is applied to a non-float work array for "
@@ -624,25 +642,55 @@ def averaging_accumulator(repo, col):
                 "taken" % (LONG[w], need, LONG[d])
         col.add(rule, fn, "accumulator for %s = %s" % (LONG[d], LONG[w]), ok,
                 "" if ok else why, node=assign)
-    # result goes back through the rounding converter
+    # result goes back through the rounding converter built for THIS call's
+    # (work type, input type)
+    from .core import walk_local, call_name
+    from .dataflow import local_defs, names_in
+    defs = local_defs(fn.node)
     rets = [s for s in stmts_of(fn.node) if isinstance(s, ast.Return)]
-    ok = bool(rets)
+    builds = [c for c in walk_local(fn.node) if isinstance(c, ast.Call)
+              and (call_name(c) or "").endswith("get_chunk_dtype_transformer")]
+    ok_build = bool(builds) and all(
+        len(c.args) >= 2 and norm(c.args[0]) == "work_dtype"
+        and norm(c.args[1]) == "dtype" for c in builds)
+    col.add(rule, fn, "converter = get_chunk_dtype_transformer(work_dtype, "
+            "dtype)", ok_build, "" if ok_build else
+            "the converter back to the input type is not built from the "
+            "accumulator type and the chunk's own dtype",
+            undecided=not builds)
+    ok, und, why = bool(rets), False, ""
     for r in rets:
-        if not (isinstance(r.value, ast.Call) and
-                isinstance(r.value.func, ast.Name)):
+        v = r.value
+        if not (isinstance(v, ast.Call) and isinstance(v.func, ast.Name)):
             ok = False
+            why = "a return path does not go through the converter (%s)" \
+                % norm(v)[:50]
             continue
-        conv = r.value.func.id
-        defs = [s for s in stmts_of(fn.node) if isinstance(s, ast.Assign)
-                and isinstance(s.targets[0], ast.Name)
-                and s.targets[0].id == conv]
-        if not defs or "get_chunk_dtype_transformer(work_dtype, dtype" \
-                not in norm(defs[-1].value):
-            ok = False
+        vals = [d.value for d in defs.get(v.func.id, []) if d.value is not None]
+        direct = [x for x in vals if isinstance(x, ast.Call) and
+                  (call_name(x) or "").endswith("get_chunk_dtype_transformer")]
+        cached = [x for x in vals if x not in direct]
+        for x in cached:
+            # a cache lookup: its key must distinguish the output type
+            keys = [n.slice for n in walk_local(x) if isinstance(n, ast.Subscript)]
+            keys += [c.args[0] for c in walk_local(x) if isinstance(c, ast.Call)
+                     and isinstance(c.func, ast.Attribute)
+                     and c.func.attr in ("get", "setdefault") and c.args]
+            if keys and all("dtype" not in (names_in(k) - {"work_dtype"})
+                            for k in keys):
+                ok = False
+                why = "the converter is cached under a key (%s) that does " \
+                    "not include the chunk's dtype: a later chunk of another " \
+                    "type is converted to the first chunk's type" \
+                    % norm(keys[0])
+            elif not keys:
+                und = True
+        if not vals:
+            und = True
     col.add(rule, fn, "return dtype_converter(chunk)", ok,
-            "" if ok else "the averaged values are not converted back through "
-            "get_chunk_dtype_transformer(work_dtype, dtype): no half-to-even "
-            "rounding / saturation")
+            "" if ok else (why or "the averaged values are not converted back "
+                           "through the rounding / saturating converter"),
+            undecided=ok is False and und and not why)
     # pairwise halving on each axis: half * (a[::2] + a[1::2])
     txt = norm(fn.node)
     for ax, sl in ((1, "chunk[:, ::2, :, :] + chunk[:, 1::2, :, :]"),
